@@ -10,13 +10,14 @@ EXPLANATION = ("Harness c06.prog: classes are built inside the path from symboli
                "{a | b | a,b | b:bounds | a,b:bounds}, on_init, override pattern: none / decorated override with another dependency "
                "set / undecorated override / grandchild inheriting a decorated override / mixin in front of the base), plus a method "
                "depending on the first method and a function-form dependency; after construction and after each of k symbolic "
-               "operations (set a, set b, set b.bounds, update(a,b), batch{a; b.bounds}, batch{a; b}) the number of calls of each "
+               "operations (set a, set b, set b.bounds, update(a,b), batch{a; b.bounds}, batch{a; b; a}, batch{a; b.bounds; b}; the slot b:bounds always has a watching method) the number of calls of each "
                "method is compared with: exactly one call iff at least one resolved dependency changed.")
 STUBS = []
 OUTSIDE = ["which dependencies an inherited method follows when the method it names as a dependency is overridden in a subclass (statement silent; the implementation keeps the ancestor's)", "sub-object dependencies (C07)", "async methods", "queued=True on depends", "more than 3 classes in the hierarchy"]
 ASSUMPTIONS = ["values symbolic ints in [0,10] (b has bounds), bounds edits (0, 10+x)"]
 DEPSETS = [('a',), ('b',), ('a', 'b'), ('b:bounds',), ('a', 'b:bounds')]
-N_OPS = 6
+N_OPS = 8
+DICTS = [{'a': 1, 'b': 2}, {'a': 1, 'c': 2}, {'a': 1, 'b': 3}, {'b': 2, 'a': 1}]
 OV = ['none', 'decorated override', 'undecorated override', 'grandchild of a decorated override', 'mixin in front of the base',
       'grandchild of an undecorated override']
 
@@ -34,6 +35,11 @@ def prog(ds1: int, init1: bool, ov: int, ds2: int, init2: bool, k: int,
             a = param.Integer(default=0)
             b = param.Integer(default=0, bounds=(0, 10))
             c = param.Integer(default=0)
+            d = param.Dict(default={'a': 1, 'b': 2})
+
+            @param.depends('d', watch=True)
+            def dm(self):          # a dict-valued dependency: change judged as for changes-only watchers (==)
+                log.append('dm')
 
             @param.depends(*DEPSETS[ds1], watch=True, on_init=init1)
             def m(self):
@@ -48,6 +54,10 @@ def prog(ds1: int, init1: bool, ov: int, ds2: int, init2: bool, k: int,
             @param.depends('m', watch=True)
             def via(self):
                 log.append('via')
+
+            @param.depends('b:bounds', watch=True)
+            def sl(self):          # keeps the slot watched whatever m depends on
+                log.append('sl')
         if ov == 0:
             K, eff, auto, tag, einit = A, DEPSETS[ds1], True, 'A.m', init1
         elif ov in (1, 3):
@@ -89,7 +99,7 @@ def prog(ds1: int, init1: bool, ov: int, ds2: int, init2: bool, k: int,
     flog = []
     with untraced():
         f = param.depends(p.param.a, watch=True)(lambda a: flog.append(a))
-    st = {'a': 0, 'b': 0, 'bb': (0, 10)}
+    st = {'a': 0, 'b': 0, 'bb': (0, 10), 'd': {'a': 1, 'b': 2}}
     for step, (o, x) in enumerate(((o1, x1), (o2, x2), (o3, x3), (o4, x4))[:k]):
         o = pick(o, 0, N_OPS - 1)
         cover('C06.op%d' % o)
@@ -102,7 +112,13 @@ def prog(ds1: int, init1: bool, ov: int, ds2: int, init2: bool, k: int,
                 ch.add(n)
             st[n] = v
         batch_kinds = set()
-        if o == 0:
+        if o == 7:      # a dict-valued dependency replaced by an equal / a different dict of the same size
+            nd = dict(DICTS[pick(x, 0, 3)])
+            p.d = nd
+            check('C06.once', log.count('dm') == (0 if nd == st['d'] else 1),
+                  dict(info0, op=o, dict_valued=True, old=repr(st['d']), new=repr(nd), got=log.count('dm')))
+            st['d'] = nd
+        elif o == 0:
             p.a = x
             setv('a', x)
         elif o == 1:
@@ -127,7 +143,7 @@ def prog(ds1: int, init1: bool, ov: int, ds2: int, init2: bool, k: int,
             if st['bb'] != nb:
                 ch.add('b:bounds')
             st['bb'] = nb
-        else:
+        elif o == 5:
             with batch_call_watchers(p):
                 p.a = x
                 p.b = x
@@ -136,11 +152,22 @@ def prog(ds1: int, init1: bool, ov: int, ds2: int, init2: bool, k: int,
             if x != x + 1:
                 ch.add('a')        # a was assigned twice inside the batch; it ends different from x
             setv('b', x)
+        else:           # a watched slot is assigned between two value assignments of one batch
+            nb = (0, 10 + x)
+            with batch_call_watchers(p):
+                p.a = x
+                p.param.b.bounds = nb
+                p.b = x
+            setv('a', x)
+            setv('b', x)
+            if st['bb'] != nb:
+                ch.add('b:bounds')
+            st['bb'] = nb
         hit = [d for d in eff if d in ch]
         exp = 1 if (auto and hit) else 0
         got = log.count(tag)
         kinds = {('slot' if ':' in d else 'value') for d in hit}
-        info = dict(info0, op=o, got=got, exp=exp, changed=sorted(ch), value_and_slot_in_one_batch=(o == 4 and len(kinds) == 2))
+        info = dict(info0, op=o, got=got, exp=exp, changed=sorted(ch), value_and_slot_in_one_batch=(o in (4, 6) and len(kinds) == 2))
         check('C06.once', got == exp, info)
         if ov in (1, 2, 3, 5):
             check('C06.override_replaces', log.count('A.m') == 0, dict(info, log=list(log)))
@@ -182,4 +209,4 @@ def shards(tier):
 
 def bounds(tier):
     return dict(program_length=2 if tier == 'quick' else 3, dependency_sets=[list(d) for d in DEPSETS], override_patterns=OV,
-                opcodes=['set a', 'set b', 'set b.bounds', 'update(a,b)', 'batch{a; b.bounds}', 'batch{a; b; a}'], values='[0,10]')
+                opcodes=['set a', 'set b', 'set b.bounds', 'update(a,b)', 'batch{a; b.bounds}', 'batch{a; b; a}', 'batch{a; b.bounds; b}', 'set the Dict parameter d'], values='[0,10]')
